@@ -316,8 +316,8 @@ func (x *Exec) specIdent(sc *specScope, name string, hint types.Type) Value {
 				return x.load(sc.st, x.globalAddr(g).Loc)
 			}
 		}
-		// package-level member
-		if sc.fr.fn.Pkg != nil {
+		// package-level member (of the generic's package for an instance of a generic function)
+		if sc.fr.fn != nil {
 			if v, ok := x.specPkgMember(sc, "", name); ok {
 				return v
 			}
